@@ -8,38 +8,38 @@ ENV = "GOFLAGS=-mod=mod GOPROXY=off GOSUMDB=off GOTOOLCHAIN=local"
 TECH = "contract-based deductive verification: weakest-precondition VCs generated from go/ssa of the real functions under //@ contracts (build tag verif), discharged by z3 5.1 / cvc5 1.0 / z3 4.8 portfolio; counterexamples replayed on the real code"
 
 CLAIMED = {
- "C01": ("4 C01", "Encoding layer of the ingest->query round trip: every little-endian value codec pair in pkg/utils is proved inverse for all inputs (functional contracts + round-trip lemmas), the record-level number decoder returns the stored value. Flattening, file I/O and column assembly are not decided.",
-         "callers establish buffer-length preconditions; NaN payloads unconstrained; JSON flattening, zstd, files, reader column assembly not covered"),
+ "C01": ("4 C01", "Encoding layer of the ingest->query round trip: every little-endian value codec pair in pkg/utils is proved inverse for all inputs (functional contracts + round-trip lemmas), the record-level number decoder returns the stored value, the block timestamp encoder stores every record offset without truncation and the reader decodes it back (functional), the reader advances by exactly the encoded record length, a column whose values were rewritten at flush (mixed types) is marked variable-length, and a column block is written in dictionary form only when the dictionary stands for the buffered values (precondition of writeWip checked in the per-column flush closure). Flattening, file I/O, zstd and column assembly are not decided.",
+         "callers establish buffer-length preconditions; NaN payloads unconstrained; the block-summary invariant at the call of encodeTimestamps and the frame of the bloom writer are explicit assumptions; goroutine-per-column flush verified as if run alone; JSON flattening, zstd, files, reader column assembly not covered"),
  "C02": ("4 C02", "Numeric and time-range comparison kernels of the search path: time-range membership/overlap equal the mathematical predicate, the record-level numeric comparison equals comparison by value (postconditions taken from the property statement; deviations are listed as known findings), case-insensitive byte equality is ASCII case folding for all lengths (loop invariant). Text/regex matching and the query grammar are not decided.",
          "literal well-formedness (wfLit) is a precondition established by CreateDtypeEnclosure (unverified: string parsing); records are the encodings the writer emits (INT64/FLOAT64/BOOL/STRING/BACKFILL); regex, wildcard and term matching not covered"),
- "C03": ("4 C03", "Pruning soundness of the pure-arithmetic accelerators: the numeric range filters equal the exact 'some value of [min,max] can satisfy v op q' predicate for all operands, the lemma 'a stored value that matches is never pruned' is proved for int/uint/float against the record-level comparison, every value added to a block's range index stays inside [min,max] across the uint->int->float promotions (map-cell contracts), and time-range overlap equals the interval predicate. Bloom filters, dictionary/raw equivalence, PQS, sort index, agile tree and parallel merge are not decided.",
-         "range-index well-formedness is a precondition (checked as postcondition of the add* functions); uint values above MaxInt64 excluded; int->float promotion obligations only in the thorough tier (slow FP queries); checkRangeIndexHelper's literal parsing not covered"),
- "C04": ("4 C04", "Time-bucket assignment: every timestamp of the range maps to an aligned bucket that contains it (mathematical-integer VCs with explicit uint64 wrap-around, all starts/ends/steps). Group-by, sketches and the stats pipeline are not decided.",
-         "step > 0 is a call-site precondition (established by the SPL grammar, unverified); group-by/values/list/HLL/t-digest, .sst fast paths not covered"),
- "C05": ("4 C05", "Order and pagination kernels: the numeric and string sort comparators equal the order of the values (strict weak order lemmas: antisymmetry, transitivity incl. transitivity of equivalence), scroll skips exactly `from` records and head keeps exactly the first `limit` records of the stream whatever the batching (contracts over the interval view of an IQR). The block scheduler, merge and sort-index paths are not decided.",
-         "IQR operations (NumberOfRecords/Discard/DiscardAfter/Append) are ASSUMED contracts over an abstract interval view; NaN excluded; compareValues' rank/typing logic (strings, interface values) not covered"),
- "C06": ("4 C06", "Chunk invariance of head, tail and scroll: each processor's cross-batch state is proved to be a function of the number of records seen only (tail: finalIqr is always the last min(seen,TailRows) records; head: union of outputs is the first MaxRows; scroll: skipped prefix), over the interval view of an IQR. The other commands of the property (where/eval/dedup/stats/...) are not decided.",
-         "IQR operations are ASSUMED contracts over an abstract interval view; stream positions below 2^60; batches arrive in stream order (adjacency precondition)"),
+ "C03": ("4 C03", "Pruning soundness of the pure-arithmetic accelerators: the numeric range filters equal the exact 'some value of [min,max] can satisfy v op q' predicate for all operands, the lemma 'a stored value that matches is never pruned' is proved for int/uint/float against the record-level comparison, every value added to a block's range index stays inside [min,max] across the uint->int->float promotions (map-cell contracts), time-range overlap equals the interval predicate, and dropping group-by columns from the aggregation tree compacts its three per-column arrays (dictionary, reverse dictionary, next-code counter) with the same index set so that they stay aligned. Bloom filters, dictionary/raw equivalence, PQS, sort index, the tree build/merge itself and parallel merge are not decided.",
+         "range-index well-formedness is a precondition (checked as postcondition of the add* functions); uint values above MaxInt64 excluded; int->float promotion obligations only in the thorough tier (slow FP queries); checkRangeIndexHelper's literal parsing not covered; utils.RemoveElements (generic) and the frame of dropColumn are ASSUMED"),
+ "C04": ("4 C04", "Time-bucket assignment: every timestamp of the range maps to an aligned bucket that contains it (mathematical-integer VCs with explicit uint64 wrap-around, all starts/ends/steps); the bin command with an explicit aligntime puts every event, also one earlier than aligntime, into the aligned span that contains it; the segment-statistics merges give avg = sum / numeric count and count/sum of the merged parts. Group-by, sketches and the stats pipeline are not decided.",
+         "step > 0 is a call-site precondition (established by the SPL grammar, unverified); getTimeBucketWithAlign is proved with float64 treated as exact real arithmetic (stated assumption: all operands are integers below 2^53; the IEEE bit-exact query with fp.div times out on all solvers); group-by/values/list/HLL/t-digest, .sst fast paths not covered"),
+ "C05": ("4 C05", "Order and pagination kernels: the numeric and string sort comparators equal the order of the values (strict weak order lemmas: antisymmetry, transitivity incl. transitivity of equivalence), scroll skips exactly `from` records and head keeps exactly the first `limit` records of the stream whatever the batching (contracts over the interval view of an IQR); the per-key comparator of multi-key sorts returns EQUAL for two missing values, puts missing values last, orders different ranks by rank and equal ranks by value (reversed when descending) and is antisymmetric (lemma), over uninterpreted rank/value functions; the sort-index merge exits early only for single-key sorts. The block scheduler and merge are not decided.",
+         "IQR operations (NumberOfRecords/Discard/DiscardAfter/Append) are ASSUMED contracts over an abstract interval view; NaN excluded; getRank and the number/string accessors of a value are ASSUMED pure functions of the value (rankOf/floatOf/strOf)"),
+ "C06": ("4 C06", "Chunk invariance of head, tail and scroll: each processor's cross-batch state is proved to be a function of the number of records seen only (tail: finalIqr is always the last min(seen,TailRows) records; head: union of outputs is the first MaxRows; scroll: skipped prefix), over the interval view of an IQR; head with an eval expression counts its limit over the whole stream (numRecordsSent <= MaxRows after every batch, grows by exactly the rows kept, reaching the limit ends the stream); fillnull's set of seen columns is the union over all batches. The other commands of the property (where/eval/dedup/stats/...) are not decided.",
+         "IQR operations are ASSUMED contracts over an abstract interval view; stream positions below 2^60; batches arrive in stream order (adjacency precondition); the boolean-expression evaluator is an ASSUMED pure frame"),
  "C08": ("4 C08", "Gorilla codec of the metrics store: the real value encoder and decoder are proved inverse for every float64 bit pattern and every window state (token-stream contracts, clz/ctz loops with inductive invariants, a round-trip lemma that re-establishes the encoder/decoder coupling invariant = the induction step over the samples of a series), likewise the delta-of-delta timestamp encoder/decoder for all int32 deltas; reading a field with another width than it was written with is a named obligation. The bit I/O layer is an assumed token-stream view; series identity (TSID hashing, tags), files and rotation are not decided.",
          "bitWriter/bitReader ASSUMED to implement the ghost token stream (a field written with writeBits(v,n) is read back by readBits(n) / n readBit calls); modifies-frames of the verified codec functions are not themselves checked; NaN payloads unconstrained; first-sample path (14-bit delta) and finish marker not covered; dod == 2^32-1 excluded (collides with the end marker)"),
- "C09": ("4 C09", "Aggregation kernels of the metrics query path only: for every number of member series the min (bottomk) / max (topk) aggregate of a group is proved to be an element of the member values that bounds all of them (loop invariants with an existential witness), group -> 1, and the metrics time-range predicates equal the interval predicates. Label matching, grouping keys, sum/avg folds, vector arithmetic and layout independence are not decided.",
-         "NaN members excluded; sum/avg (left folds) and quantile not specified; selector / matcher semantics (strings, regex) not covered"),
- "C10": ("4 C10", "Thin: in all three WAL iterators a block is decoded only behind the CRC gate (the decoder call is dominated by crc32(block) == stored checksum, CRC as an uninterpreted function of the bytes read), the framing arithmetic cannot wrap (blockSize >= 4 before the subtraction), and the writer frames a block as size | crc32(payload) | payload. The crash-prefix and truncation-length parts of the property are about file-system histories and are not decided.",
+ "C09": ("4 C09", "Aggregation kernels of the metrics query path only: for every number of member series the min (bottomk) / max (topk) aggregate of a group is proved to be an element of the member values that bounds all of them (loop invariants with an existential witness), group -> 1, the metrics time-range predicates equal the interval predicates, and a regex label matcher is applied fully anchored (^(pattern)$, grouped) and accepts a value iff the match agrees with the operator (=~ / !~). The meaning of regular expressions, grouping keys, sum/avg folds, vector arithmetic and layout independence are not decided.",
+         "NaN members excluded; sum/avg (left folds) and quantile not specified; regexp.Match is external; 'fully anchored' is an uninterpreted predicate derived from the literal Sprintf format; equality matchers and selector parsing not covered"),
+ "C10": ("4 C10", "Thin: in all three WAL iterators a block is decoded only behind the CRC gate (the decoder call is dominated by crc32(block) == stored checksum, CRC as an uninterpreted function of the bytes read), the framing arithmetic cannot wrap (blockSize >= 4 before the subtraction), the writer frames a block as size | crc32(payload) | payload, a decoded datapoint block leaves exactly its own N datapoints in the iterator (no leftover of an earlier larger block), and WAL rotation closes the old file before opening the next index. The crash-prefix and truncation-length parts of the property are about file-system histories and are not decided.",
          "binary.Read / io.ReadFull / zstd / json are external (arbitrary results); recovery loop's treatment of errors as end-of-log not covered"),
- "C13": ("4 C13", "Segment-selection guard: every rotated or open segment handed to a search, and every column name collected for it, is proved (path-condition contracts at the insertion sites, loop invariant for the index-name match) to belong to the requesting organisation, to a requested index and to overlap the query time range. Index-name expansion (wildcards, aliases), metrics queries and deletion are not decided.",
+ "C13": ("4 C13", "Segment-selection guard: every rotated or open segment handed to a search, and every column name collected for it, is proved (path-condition contracts at the insertion sites, loop invariant for the index-name match) to belong to the requesting organisation, to a requested index and to overlap the query time range. Removing an alias removes it from the in-memory alias map as well as from the file, and the stream id under which ingest finds a segment store carries the org id as its own dash-separated field (ids of different orgs differ; string-level rule on the Sprintf format literal). Index-name expansion (wildcards), metrics queries and deletion are not decided.",
          "map iteration is abstracted (arbitrary order/elements); ExpandAndReturnIndexNames, alias maps and deletion not covered"),
- "C14": ("4 C14", "Victim-selection guard of the time-based retention pass: a log or metrics segment is put on the deletion list only if its newest event is at or before the horizon (no arithmetic overflow in the second->millisecond conversion) and only entries of the requesting organisation are considered. The converse direction (every expired segment is deleted), interruption/repetition, files and blob store are not decided.",
+ "C14": ("4 C14", "Victim-selection guard of the time-based retention pass: a log or metrics segment is put on the deletion list only if its newest event is at or before the horizon (no arithmetic overflow in the second->millisecond conversion) and only entries of the requesting organisation are considered. The shared tags-tree directory of a metrics base dir is removed only when no surviving segment uses it; segmeta.json is rewritten from the preserved entries only (an entry is preserved iff it is not a victim), through a truncated temp file renamed over the file itself. The converse direction (every expired segment is deleted), crash interruption, files and blob store are not decided.",
          "segment metadata readers and the sort are external (arbitrary results); volume- and inode-based passes not covered"),
- "C15": ("4 C15", "Acknowledgement bookkeeping of the bulk handler: the response's errors flag is proved equal to 'some item was stored with a failure status' (ghost flag + loop invariant over the request loop, all bodies), a created status is stored only for a successful item, and line splitting partitions the body around the first newline. Whether a created document becomes searchable is not decided.",
+ "C15": ("4 C15", "Acknowledgement bookkeeping of the bulk handler: the response's errors flag is proved equal to 'some item was stored with a failure status' (ghost flag + loop invariant over the request loop, all bodies), a created status is stored only for a successful item, every action gets exactly one response item (ghost counter), line splitting partitions the body around the first newline, and whatever object the pool hands out, a document is parsed into an event with no columns carrying only this request's body, timestamp and index (a failed item leaves no trace in the next one). Whether a created document becomes searchable is not decided.",
          "JSON parsing, PLE creation and the store are external calls (arbitrary results, ghost state preserved); failures of ProcessIndexRequestPle after statuses were assigned (acknowledged TODO in the code) not covered"),
- "C16": ("4 C16", "Event-time normalisation: a numeric timestamp in seconds / milliseconds / nanoseconds is stored as its millisecond (logs) or second (Prometheus remote write) instant for all 2^64 values, and the JSON number path of ExtractTimeStamp agrees with the string path (ghost-linked contracts). Attribute/field preservation through the protocol decoders is not decided.",
+ "C16": ("4 C16", "Event-time normalisation: a numeric timestamp in seconds / milliseconds / nanoseconds is stored as its millisecond (logs) or second (Prometheus remote write) instant for all 2^64 values, and the JSON number path of ExtractTimeStamp agrees with the string path (ghost-linked contracts), an integer JSON number keeps its exact value (not routed through float64), and the Prometheus path tests the nanosecond band before the millisecond band. Attribute/field preservation through the protocol decoders is not decided.",
          "the magnitude band [1e14,1e18) is treated as milliseconds by both paths (no microsecond case exists); jsonparser/strconv are external (results arbitrary); RFC3339 parsing not covered"),
- "C18": ("4 C18", "Decoders of the files that carry no checksum must not panic on arbitrary bytes: the block-summary readers (.bsu, .mbsu) and the timestamp-column decoder are proved free of index/slice/nil panics for every file content and length (unbounded loops with inductive invariants), and the timestamp decoder is proved to return lowTs + the stored offset for every record. Checksummed column blocks, zstd and whole-query behaviour are not decided.",
+ "C18": ("4 C18", "Decoders of the files that carry no checksum must not panic on arbitrary bytes: the block-summary readers (.bsu, .mbsu) and the timestamp-column decoder are proved free of index/slice/nil panics for every file content and length (unbounded loops with inductive invariants), the timestamp decoder is proved to return lowTs + the stored offset for every record, a chunk of a checksummed file is handed out only behind its CRC comparison, and a column block whose load failed never becomes the reader's loaded block (isBlockLoaded/currBlockNum change only on success and then name that block; loader frame verified down to the pools/zstd, which are assumed). zstd itself and whole-query behaviour are not decided.",
          "file I/O results are arbitrary (os.File.Read/ReadAt, FileInfo.Size assumed 0 <= n <= len); dictionary rank values of the column-name map assumed small (explicit site assumption); decoders that only see CRC-verified blocks are checked under their well-formedness precondition in C01, not here"),
- "C19": ("4 C19", "Confinement of client-supplied names as a sanitiser discipline for lookup files and dashboards: every os.* call of the upload/get/delete lookup handlers and of the dashboard read/write paths is proved to take a path built from a trusted directory and a name that passed the validator (uninterpreted safeName/confined predicates; appending a separator-free literal keeps a name safe, decided on the literal's text). Index/alias/saved-query/scroll names, URL decoding and symlinks are not decided.",
+ "C19": ("4 C19", "Confinement of client-supplied names as a sanitiser discipline for lookup files and dashboards: every os.* call of the upload/get/delete lookup handlers and of the dashboard read/write paths is proved to take a path built from a trusted directory and a name that passed the validator (uninterpreted safeName/confined predicates; appending a separator-free literal keeps a name safe, decided on the literal's text). A name that is transformed (e.g. percent-decoded) after validation is no longer a validated name. Index/alias/saved-query/scroll names and symlinks are not decided.",
          "the validator's and filepath.Join's string-level meaning is ASSUMED; only the handlers listed in the evidence are covered"),
- "C20": ("4 C20", "Alert state machine kernels: threshold conditions equal the configured comparison, Firing requires the current and the N-1 previous evaluations Pending/Firing (loop invariant over the history rows), the new state is Normal iff the condition did not hold and a notification is attempted exactly on Firing/Normal, the notification gate follows its decision table, no division by a zero interval. The keyed-store half of the property is not decided.",
-         "history store (sqlite/gorm) ASSUMED to return non-nil rows; time.Now-based cool-down observers assumed pure; saved objects/dashboards/aliases CRUD not covered"),
+ "C20": ("4 C20", "Alert state machine kernels: threshold conditions equal the configured comparison, Firing requires the current and the N-1 previous evaluations Pending/Firing (loop invariant over the history rows), the new state is Normal iff the condition did not hold and a notification is attempted exactly on Firing/Normal, the notification gate follows its decision table, no division by a zero interval. Keyed-store half, saved queries only: every mutation of a tenant's in-memory map (write, delete, delete-all) that reports success leaves the tenant's own file rewritten/removed (ghost 'synced' flag cleared at each mutation and set only at the file write). Dashboards, folders, aliases, contact points and restart behaviour are not decided.",
+         "history store (sqlite/gorm) ASSUMED to return non-nil rows; time.Now-based cool-down observers assumed pure; JSON encoding and file names are opaque (usqFile(myid) uninterpreted); dashboards/aliases/contacts CRUD not covered"),
 }
 
 NOT_APPLICABLE = {
